@@ -168,10 +168,10 @@ def read_batch_files(location):
     out = {}
     d = os.path.join(location, "batches")
     for name in rlistdir(d) or []:
-        if name.startswith("xyz-batch-") and name.endswith(".jbdmp"):
-            i = int(name[len("xyz-batch-"):-len(".jbdmp")])
+        core = name[len("xyz-batch-"):-len(".jbdmp")]
+        if name.startswith("xyz-batch-") and name.endswith(".jbdmp") and core.isdigit():
             with interpose.real.open(os.path.join(d, name), "rb") as f:
-                out[i] = pickle.load(f)
+                out[int(core)] = pickle.load(f)
     return out
 
 
@@ -179,8 +179,9 @@ def result_ids(location):
     d = os.path.join(location, "results")
     ids = set()
     for name in rlistdir(d) or []:
-        if name.startswith("xyz-result-") and name.endswith(".jbdmp"):
-            ids.add(int(name[len("xyz-result-"):-len(".jbdmp")]))
+        core = name[len("xyz-result-"):-len(".jbdmp")]
+        if name.startswith("xyz-result-") and name.endswith(".jbdmp") and core.isdigit():
+            ids.add(int(core))
     return ids
 
 
